@@ -659,7 +659,7 @@ spif_array_insert_at(spif_array_t self, spif_obj_t obj, spif_listidx_t idx)
         /* Negative indexes go backward from the end of the list. */
         idx += self->len;
     }
-    REQUIRE_RVAL((idx + 1) >= 0, FALSE);
+    REQUIRE_RVAL(idx >= 0, FALSE);
 
     if (idx > self->len) {
         /* The array is going to grow by more than 1; we'll need to pad with NULL's. */
